@@ -82,6 +82,12 @@ def _family_archs() -> List[Dict[str, Any]]:
         {"dim": 2, "c0": 2, "sp": 2, "nodes": [mk(2, "conv", [0], 3, 3), mk(2, "flat", [1]), mk(2, "lin", [2], 2)]},
         {"dim": 2, "c0": 3, "sp": 4, "nodes": [mk(2, "conv", [0], 6, 3), mk(2, "relu", [1]), mk(2, "pool", [2]), mk(2, "flat", [3]),
                                                 mk(2, "lin", [4], 5), mk(2, "relu", [5]), mk(2, "lin", [6], 3)]},
+        # a channel concat of two tensors the search cannot prune, of DIFFERENT widths (the network input and the output of
+        # a layer excluded from the search), feeding searchable layers
+        {"dim": 2, "c0": 2, "sp": 2, "nodes": [dict(mk(2, "conv", [0], 3, 3), excl=True), mk(2, "cat", [0, 1]), mk(2, "conv", [2], 3, 3),
+                                                mk(2, "relu", [3]), mk(2, "conv", [4], 2, 1)]},
+        {"dim": 1, "c0": 1, "sp": 6, "nodes": [dict(mk(1, "conv", [0], 4, 3), excl=True), mk(1, "relu", [1]), mk(1, "cat", [2, 0]),
+                                                mk(1, "conv", [3], 3, 3), mk(1, "conv", [4], 2, 1)]},
     ]]
 
 
